@@ -1,6 +1,6 @@
 """C06 configuration for ./check (see checks/propcfg.py for the keys)."""
 CFG = {
-    "modules": ["VaxisModel.Props.C06", "VaxisModel.Props.C06Bridge", "VaxisModel.Witness.F21", "VaxisModel.Witness.F22", "VaxisModel.Witness.F54",
+    "modules": ["VaxisModel.Props.C06", "VaxisModel.Props.C06Bridge", "VaxisModel.Props.C06Gen", "VaxisModel.Witness.F21", "VaxisModel.Witness.F22", "VaxisModel.Witness.F54",
                 "VaxisModel.Witness.F106a", "VaxisModel.Witness.F106b", "VaxisModel.Witness.F106c", "VaxisModel.Witness.F106d", "VaxisModel.Witness.F106e", "VaxisModel.Witness.F106f"],
     "extractors": ["C05"],
     "drivers": ["C06"],
@@ -37,7 +37,9 @@ CFG = {
                   "OSC 8, ?25 h/l, DECSCUSR) that Spec.Display runs without `bad`, every Spec.Term step returns a singleton accept-set (never unconstrained) and the two "
                   "end states are related (cursor, pending wrap, pen, link, visibility, shape, every cell up to TCell.norm; cont and poison cells in exactly the same places); "
                   "init_related, display_refines_term_from_start. The full statement over the oracle's vocabulary tokOfJ is FALSE of the current code exactly on non-SGR "
-                  "sequences with colon sub-parameters (Witness/F106f refines_J_fails; tokOfJ_region: elsewhere tokOfJ = tokOfX, the vocabulary of the proved theorems).",
+                  "sequences with colon sub-parameters (Witness/F106f refines_J_fails; tokOfJ_region: elsewhere tokOfJ = tokOfX, the vocabulary of the proved theorems). "
+                  "translated_emu_refines_from_start_X (Props/C06Gen.lean): the history theorem for runs through the code as translated from the source only "
+                  "(update()'s regenerated type switch, the regenerated dispatch tables and bodies, the translated resize(); C05's runGen_eq).",
     "level_note": "Proved for all states/parameters/histories: every operation of the vocabulary, SGR included (emu_refines_term_all, "
                   "emu_refines_histories_all, emu_refines_from_start_all; sgr_refines_spec: on every well-formed SGR sequence the emulator's pen "
                   "abstracts to Spec.sgr). Restrictions: grapheme string non-empty (the parser never emits an empty one); a non-SGR function with a colon anywhere in "
